@@ -3,6 +3,7 @@ import json
 from hypothesis import strategies as st
 from engine.driver import Result, viol
 from engine.sqfprog import vm_value
+from engine.runner import RunnerCrash
 
 ID = "C11"
 LEVEL = "exploration"
@@ -10,7 +11,7 @@ ENGINE = "E-hyp"
 TECHNIQUE = "property-based testing on a virtual clock (hook H1): histories of non-terminating / long-running and short programs on one VM with generated limits and clock jumps; oracle = deadline arithmetic on virtual time, abort diagnostic, empty VM, iteration counters vs. cap"
 RULE = ("cases = configuration (max runtime 0 or 5..3000 ms, loop cap 1..300 or 10000) + history of 1-5 runs; each run is a program from "
         "{while-true with empty / non-empty body (unscheduled or scheduled), for-step-0, recursion through call / forEach, mutually spawning scripts, "
-        "waitUntil {false}, long sleep, short terminating program}, optionally preceded by a virtual clock jump beyond the limit; the clock advances 0.1 ms per read; "
+        "waitUntil {false}, long sleep, short terminating program, an expression (terminating / endless) evaluated by the preprocessor through __EVAL}, optionally preceded by a virtual clock jump beyond the limit; the clock advances 0.1 ms per read; "
         "non-trivial = the run would not terminate by itself, or is preceded on the same VM by elapsed virtual time greater than the limit; distinct = SHA-1 of the case")
 LEVEL_TEXT = ("Exploration on virtual time: every run must return within limit + slack of virtual time measured from its own start, carry the "
               "MaximumRuntimeReached diagnostic when it was cut, leave the VM empty and reusable; while loops in unscheduled code stop at the cap.")
@@ -39,6 +40,8 @@ PROGRAMS = {
     "spawn_sleep": ('T = []; [] spawn {sleep 50000; T pushBack 9}; T pushBack 1;', False, False, False),
 }
 ENDLESS = [k for k, v in PROGRAMS.items() if not v[2]]
+# expressions evaluated through the preprocessor: name -> (source, endless)
+PP_EVAL = {"pp_eval": ("R = __EVAL(1 + 1);\n", False), "pp_eval_endless": ("R = __EVAL(call {while {true} do {N = 1}; 1});\n", True)}
 
 
 @st.composite
@@ -49,9 +52,9 @@ def _cases(draw):
     runs = []
     for _ in range(n):
         if limit == 0:
-            prog = draw(st.sampled_from(["short", "short_sched", "while_empty", "while_body", "while_empty_nested"]))
+            prog = draw(st.sampled_from(["short", "short_sched", "while_empty", "while_body", "while_empty_nested", "pp_eval"]))
         else:
-            prog = draw(st.sampled_from(list(PROGRAMS)))
+            prog = draw(st.sampled_from(list(PROGRAMS) + ["pp_eval", "pp_eval", "pp_eval_endless"]))
         adv = draw(st.sampled_from([0, 0, 1, limit * 2 + 10, 100000]))
         runs.append(dict(prog=prog, advance_ms=adv))
     return dict(limit_ms=limit, cap=cap, runs=runs)
@@ -69,10 +72,35 @@ def check(case, env):
     v = None
     elapsed_before = 0
     for idx, run in enumerate(case["runs"]):
-        text, sched, terminates, capped = PROGRAMS[run["prog"]]
         if run["advance_ms"]:
             r.cmd(dict(op="clock", advance_us=run["advance_ms"] * 1000))
         elapsed_before += run["advance_ms"]
+        if run["prog"] in PP_EVAL:
+            # an expression evaluated by the preprocessor (__EVAL) is bounded like a run of its own, whatever the age of the VM
+            if limit and elapsed_before > limit:
+                labs.add("old_vm")
+            labs.add("pp_eval")
+            src, endless_eval = PP_EVAL[run["prog"]]
+            c0 = r.cmd(dict(op="clock"))["now_us"]
+            try:
+                rep = r.cmd(dict(op="preprocess", vm=0, text=src, fresh=True, file="/c11/eval.sqf"), timeout=20.0)
+            except RunnerCrash as rc:
+                if rc.kind != "timeout":
+                    raise
+                v = viol("eval-never-returns|" + run["prog"], "limit=%d ms cap=%d, step %d/%d: preprocessing %r (clock advanced %d ms before it, %d ms since VM creation) did not return within 20 s" % (
+                    limit, cap, idx + 1, len(case["runs"]), src, run["advance_ms"], elapsed_before))
+                break
+            t_ms = (r.cmd(dict(op="clock"))["now_us"] - c0) / 1000.0
+            ctx = "limit=%d ms cap=%d, step %d/%d: preprocess %r (clock advanced %d ms before it, %d ms since VM creation)\n  ok=%s text=%r t=%.0f ms logs=%s\n" % (
+                limit, cap, idx + 1, len(case["runs"]), src, run["advance_ms"], elapsed_before, rep.get("ok"), (rep.get("text") or "")[-40:], t_ms, [l["m"][:80] for l in rep.get("logs", [])[:3]])
+            if not endless_eval and (not rep.get("ok") or "R = 2;" not in (rep.get("text") or "")):
+                v = viol("eval-aborted|" + ("old-vm" if elapsed_before > limit > 0 else "fresh"), ctx + "a terminating expression was not evaluated")
+                break
+            if endless_eval and limit and t_ms > limit + 2.5 and not (cap * 2 < limit):
+                v = viol("deadline-overrun|" + run["prog"], ctx + "the evaluation took %.0f ms of virtual time, limit is %d ms" % (t_ms, limit))
+                break
+            continue
+        text, sched, terminates, capped = PROGRAMS[run["prog"]]
         r.cmd(dict(op="clearvars", vm=0))
         rep = r.run(text, vm=0, scheduled=sched, getvars=["T", "N", "B"], getvars_struct=True, timeout=30.0)
         logs = rep.get("logs", [])
